@@ -111,6 +111,9 @@ ParseMember(m0) ==
            dm   == Dec(meta)
        IN
        IF Size(rawK) + Size(rawV) > MaxMember THEN [v |-> "drop", e |-> Wild]
+       \* an unescaped non-printable byte (anywhere in key or value, also at the very edge of the member)
+       \* makes the member invalid under every reading: it is skipped, never "cleaned"
+       ELSE IF \E i \in 1..Len(body) : body[i].t = "raw" /\ body[i].c = "np" THEN [v |-> "drop", e |-> Wild]
        ELSE IF \E i \in 1..Len(body) : body[i].t = "raw" THEN [v |-> "wild", e |-> Wild]
        ELSE IF \E i \in 1..Len(body) : body[i].t = "bad" THEN [v |-> "drop", e |-> Wild]
        ELSE IF ~ValidKeyS(dk) \/ ~ValidValS(dv) THEN [v |-> "drop", e |-> Wild]
@@ -217,11 +220,15 @@ DefiniteMembers ==
   \cup {<<L("a"), W("sp"), Equal, W("sp"), L("b")>>}                   \* OWS around '='
   \cup {<<>>, <<W("sp")>>, <<W("tab"), W("sp")>>}                      \* empty / blank-only member
   \cup {Mem(PlainK, <<L("b"), W("sc"), W("a"), W("np")>>), Mem(PlainK, <<W("sc"), W("np"), W("b")>>)}  \* np metadata
+NpMembers ==    \* raw non-printable byte at the first / last position of the member, of the key, of the value, alone
+  {Mem(<<W("np"), L("a")>>, <<L("b")>>), Mem(<<L("a")>>, <<L("b"), W("np")>>), Mem(<<L("a")>>, <<W("np"), L("b")>>),
+   Mem(<<W("np")>>, <<L("b")>>), Mem(<<L("a")>>, <<W("np")>>), <<W("np")>>, <<W("np"), W("np")>>,
+   Mem(<<T("raw", "np", 2), L("a")>>, <<L("b"), W("sc"), W("a")>>)}
 WildMembers ==
   {Mem(<<L("a"), W(c)>>, <<L("b")>>) : c \in {"op", "np", "pl"}}
   \cup {Mem(PlainK, <<L("b"), W(c), L("b")>>) : c \in {"op", "np", "pl", "eq", "sp"}}
   \cup {Mem(<<L("a"), W("sp"), L("a")>>, <<L("b")>>)}
-MemberMenu == DefiniteMembers \cup WildMembers
+MemberMenu == DefiniteMembers \cup NpMembers \cup WildMembers
 
 P1 == Mem(<<T("lit", "b", 2)>>, <<L("a")>>)
 P2 == Mem(<<T("lit", "b", 3)>>, <<L("b"), W("sc"), W("a")>>)
